@@ -216,6 +216,18 @@ HEAP_SIG = {
 }
 
 
+STORAGE_SIG = "C16 fresh-list-result shares Go slice storage (x[i:j] aliases x; + writes into spare capacity)"
+
+
+def fresh_list_result(st):
+    """Statements whose list result is a brand-new object in CPython."""
+    k, f = st["k"], st["f"]
+    return (k in ("slice", "compr", "binlit") or (k == "bin" and f in ("add", "zip"))
+            or (k == "un" and f in ("sorted", "sortedrev", "reversed", "enumerate", "rangelen", "mul2", "keys", "values", "items"))
+            or (k == "hof" and f in ("map", "filter")) or (k == "call" and f == "f"))
+
+
+STR_SLICE_SIG = "C16 str-slice non-ASCII sliced-by-bytes (bounds counted in characters)"
 NIL_SIG = "C16 builtin=filter/comprehension empty-list-result is-nil (json null, != [])"
 
 
@@ -365,8 +377,9 @@ def run_heap(ctx, stats):
         if not ctx.quick:
             vlib.tlc(ctx, "AspHeap", "MC_AspHeap.cfg", workers=8, timeout=1200)
         # tlc -simulate prints every successor of every visited state (prefix-closed): ~100-200 cases per step
-        by, note = gen_heap(ctx, "h", ["GEN_AspHeap_2.cfg"], ["GEN_AspHeap_2.cfg", "GEN_AspHeap_3.cfg"],
-                            "SIM_AspHeap.cfg", 8, 150, 7)
+        # quick: all programs of 2 statements + all of the shape literal; anything; mutation (aliasing probes)
+        by, note = gen_heap(ctx, "h", ["GEN_AspHeap_2.cfg", "GEN_AspHeap_3m.cfg"], ["GEN_AspHeap_2.cfg", "GEN_AspHeap_3.cfg"],
+                            "SIM_AspHeap.cfg", 3, 150, 7)
     M = Menus(note)
     cases = [c for c in by.values() if c["prog"]]
     for i, c in enumerate(cases):
@@ -402,6 +415,7 @@ def run_heap(ctx, stats):
                 real[(c["id"], mode)] = {v: o["values"][v] for v in c["names"]}
             else:
                 real[(c["id"], mode)] = dict(zip(c["names"], o["values"]["r"]))
+    pending = []
     for c in cases:
         parent = by.get(prog_key(c["prog"][:-1])) if len(c["prog"]) > 1 else dict(prog=[])
         if parent is None:
@@ -434,14 +448,44 @@ def run_heap(ctx, stats):
                           chain=[dict(prog=x["prog"], expect=x["expect"], algo=x["algo"]) for x in chain])
             singles = ["aug", "sort", "strict"] + (["fold"] if mode == "d" else [])
             hit = [k for k in singles if algo[k] is not None and same(got, algo[k])]
-            if same(denil(got, c["want"]), c["want"]):
+            srcv = (parent.get("want") or {}).get(last["x"]) if last["k"] == "slice" else None
+            if isinstance(srcv, str) and not srcv.isascii():
+                ctx.violation(STR_SLICE_SIG, detail)
+            elif same(denil(got, c["want"]), c["want"]):
                 ctx.violation(NIL_SIG, detail)
             elif hit:
                 ctx.violation(HEAP_SIG[hit[0]], detail)
             elif algo[cfgname] is not None and same(got, algo[cfgname]):
                 ctx.violation(HEAP_SIG["combined"], detail)
             else:
-                ctx.violation("C16 heap unpredicted stmt=%s mode=%s" % (stmt_tag(last), cfgname), detail)
+                pending.append((c, mode, cfgname, algo, detail, chain))
+    # Differences no deviation model predicts: is Go slice storage the cause?  Re-run the program with a copy
+    # `a = [e for e in a]` inserted after every statement whose list result CPython guarantees to be fresh (neutral in
+    # Python; in asp it detaches the result from shared storage and spare capacity).  This only chooses the signature.
+    req2 = []
+    for n, (c, mode, cfgname, algo, detail, chain) in enumerate(pending):
+        lines = []
+        for st, pc in zip(c["prog"], chain):
+            lines += stmt_lines(st, M)
+            if fresh_list_result(st) and pc["expect"][st["a"]]["k"] == "list":
+                lines.append("%s = [e for e in %s]" % (st["a"], st["a"]))
+        if mode == "b":
+            req2.append(dict(id="r%d" % n, src=PRELUDE + "".join(l + "\n" for l in lines), probes=c["names"]))
+        else:
+            defs = PRELUDE + "def prog():\n" + "".join("    " + l + "\n" for l in lines) + "    return [" + ", ".join(c["names"]) + "]\n"
+            req2.append(dict(id="r%d" % n, defs=defs, src="r = prog()\n", probes=["r"]))
+    obs2 = vlib.run_vh(ctx, "asp", req2) if req2 else {}
+    for n, (c, mode, cfgname, algo, detail, chain) in enumerate(pending):
+        o = obs2.get("r%d" % n) or {}
+        rep = None
+        if "values" in o:
+            rep = {v: o["values"][v] for v in c["names"]} if mode == "b" else dict(zip(c["names"], o["values"]["r"]))
+        detail["asp_with_copies_inserted"] = rep
+        explained = rep is not None and (same(rep, c["want"]) or any(a is not None and same(rep, a) for a in algo.values()))
+        if explained:
+            ctx.violation(STORAGE_SIG, detail)
+        else:
+            ctx.violation("C16 heap unpredicted stmt=%s mode=%s" % (stmt_tag(c["prog"][-1]), cfgname), detail)
     return len(cases)
 
 
@@ -451,7 +495,7 @@ CLAIM16 = dict(
          "exhaustive pairs and triples, simulate beyond) and AspHeap.tla (environment + heap semantics of list/dict programs: "
          "literals, aliases, +=, index/key assignment, calls incl. default arguments and argument mutation, comprehensions, slices, "
          "sorted/reversed/len/min/max/any/all/enumerate/zip/range, +, *, ==, in, |, map/filter/reduce, literal in a loop; exhaustive "
-         "2 (quick) / 3 (thorough) statements over 2 variables, tlc -simulate to 6 statements over 3 variables) predict every variable's "
+         "2 statements + every `literal; statement; mutation` (quick) / 3 statements (thorough) over 2 variables, tlc -simulate to 6 statements over 3 variables) predict every variable's "
          "value; each TLC-generated program is run through CPython (spec != CPython -> exit 2) and through the real asp interpreter "
          "in-process, both as a BUILD file and inside a function of a subincluded build_defs file (optimiser path); whenever asp "
          "evaluates without error every value must equal the spec's (= CPython's).",
